@@ -1,17 +1,27 @@
 """C01 - end-to-end payload delivery between stations through BTP and GeoNetworking.
 
-Decides (structure): framing agreement between originator and receiver (every slice constant applied by a consumer
-equals the length of the codec it strips); the port demultiplexing key; completeness of request / indication forwarding
-across the BTP <-> GN boundary; payload provenance on both sides; delivery guards (addressee only, upper layer called
-only with an indication); the location-service buffering protocol; uniform treatment of the security switch at
-origination.  Hemisphere arithmetic: C02.signed.  Geometry: C07.  Duplicates / own address: C06.
-Does not decide "exactly once / in request order" over histories, nor byte identity as a value fact.
+Decides (structure): framing agreement (frame: every slice constant a consumer applies - basic / common / extended
+header, the 4 SHB media-dependent octets, the 4-octet BTP header - equals the length of the codec it strips); indication
+provenance (ind-fwd: payload, length, SO PV, next header, traffic class and transport type of every GN and BTP
+indication come from the decoded packet); demultiplexing (demux: each BTP type is parsed by its own header class, the
+handler is looked up by the decoded DESTINATION port, every field of its indication is followed to the received one,
+and an indication is dropped without a handler call only when no handler is registered or the BTP header is
+incomplete); request forwarding (req-fwd: every GNDataRequest keyword is fed by the matching BTPDataRequest attribute on
+both BTP branches, payload = BTP header of the request's ports + data, every built request is handed down; every path
+of a gn_data_request* function that answers ACCEPTED while a link layer is configured contains a link-layer send, a
+store into the location-service / contention buffer or a call of another origination function); delivery guards
+(addressee: unicast delivered only under DE address == own address, forwarded only otherwise, upper layer called only
+with a non-None indication returned by a receive handler); the location-service buffering protocol (ls: unicast sent
+only for a known destination with no lookup pending; the request appended / stored on both branches; the addressed
+requester flushes the popped buffer in order, resets ls_pending, cancels the timer; giving up discards the buffer and
+resets the flag); the security switch (sec-switch: every originating send is secured exactly under itsGnSecurity ==
+ENABLED).  Hemisphere arithmetic: C02.signed.  Geometry: C07.  Duplicates / own address: C06.
+Does not decide "exactly once / in request order" over histories, byte identity as a value fact, nor that a buffered or
+delegated packet is eventually transmitted (run properties).
 
-How values are compared: every expression is first expanded through the flow (locals -> reaching definitions), then
-brought into a normal form by `Sym` (records: constructions of dataclasses are evaluated field by field, also through
-pure re-packaging helpers - classmethods / copy methods whose body is `locals; return <construction>` - and through
-dataclasses.replace; nested open-ended slices are composed, x[a:][b:] == x[a+b:]; getattr(x, 'f', d) on a typed record
-is x.f) and compared through the canonical text of sem.cx.  Guards are compared as canonical atoms (sem.atoms).
+Values are compared after expansion through the flow and normalisation by `Sym` (dataclass constructions field by
+field, also through re-packaging helpers and dataclasses.replace; x[a:][b:] == x[a+b:]) as canonical text (sem.cx),
+guards as canonical atoms (sem.atoms).
 """
 from __future__ import annotations
 
